@@ -963,10 +963,19 @@ func checkGoroutines(c *Check) {
 		var doneRecv *ssa.Call // X.Done()
 		hasDoneSelect, hasSocketIO, hasCopy, hasForever := false, false, false, false
 		for _, ci := range callInstrs(g.body) {
-			n, _ := calleeOf(ci)
 			if ci.Common().IsInvoke() && ci.Common().Method.Name() == "Done" {
 				doneRecv, _ = ci.(*ssa.Call)
 			}
+		}
+		// the body's work may sit in per-round helpers of the package (`for c.sendNext() {}`)
+		bodyFns := []*ssa.Function{g.body}
+		for _, ci := range callInstrs(g.body) {
+			if _, callee := calleeOf(ci); callee != nil && callee.Pkg == g.body.Pkg && len(callee.Blocks) > 0 && callee != g.body {
+				bodyFns = append(bodyFns, callee)
+			}
+		}
+		for _, ci := range callInstrsDeep(g.body, 1) {
+			n, _ := calleeOf(ci)
 			if strings.HasSuffix(n, "container.socket).RecvMsg") {
 				hasSocketIO = true
 			}
@@ -974,7 +983,11 @@ func checkGoroutines(c *Check) {
 				hasCopy = true
 			}
 		}
-		for _, op := range chanOpsOf(g.body) {
+		var ops []chanOp
+		for _, bf := range bodyFns {
+			ops = append(ops, chanOpsOf(bf)...)
+		}
+		for _, op := range ops {
 			if op.kind == "select" && hasSuffixAny(op.chans, ".done") {
 				hasDoneSelect = true
 			}
